@@ -75,6 +75,9 @@ inductive Stmt (Root Chain : Type)
   | tlsConfig (e c : Nat)
   /-- `eK.connect…(..)` and a call over the channel (`&self`: defines no variable) -/
   | connect (e : Nat)
+  /-- `let eN = Endpoint::new(eK.clone());` — generated `connect(dst)` called with a `dst` that
+  already is an `Endpoint` (`D: TryInto<Endpoint>` holds for `Endpoint` itself) -/
+  | endpointNewFrom (e : Nat)
   deriving Repr
 
 /-- Build features and ambient state outside the caller's configuration. -/
